@@ -74,9 +74,16 @@ int cmd_enc(int argc, char** argv) {
         }
         if (op == "fill") {
             size_t target; ls >> target;
-            for (int guard = 0; guard < 8; guard++) {
+            for (int guard = 0; guard < 24; guard++) {
                 size_t f = Access::enc_fill(*e);
                 if (f == target) break;
+                if (guard % 3 == 2) {
+                    // the previous attempts were upset by a flush at the start of the call: force that flush with an
+                    // empty string and aim again from the (low) fill level it leaves behind
+                    std::string none;
+                    call("bsn 0 " + std::to_string(ln), [&] { return e->write_bytestring(none); });
+                    continue;
+                }
                 size_t need = (target + CdnsEncoder::BUFFER_SIZE - f) % CdnsEncoder::BUFFER_SIZE;
                 if (need == 0) need = CdnsEncoder::BUFFER_SIZE;
                 // payload length n with head(n)+n == need where possible, otherwise undershoot and loop
